@@ -16,6 +16,7 @@ import (
 )
 
 type retRec struct {
+	cut   int // number of assumptions made when the return was reached in translation order
 	reach string
 	val   Val
 	heap  Heap
@@ -160,7 +161,7 @@ func (vc *VC) globalVal(g *ssa.Global) Val {
 		vc.defIdx[n] = d
 	}
 	pt := g.Type().(*types.Pointer).Elem()
-	v := Val{T: n, Typ: g.Type()}
+	v := Val{T: n, Typ: g.Type(), Glob: g}
 	switch pt.Underlying().(type) {
 	case *types.Struct:
 	case *types.Array:
@@ -1269,6 +1270,9 @@ func (fr *Frame) block(b *ssa.BasicBlock, ov *headOverride) {
 	fr.reach[b.Index] = reach
 	fr.heap = heap
 	vc.curFrame = fr
+	if fr.isTop {
+		vc.curTopBlock = b.Index
+	}
 	if li != nil {
 		fr.enterLoop(li)
 	}
